@@ -51,6 +51,8 @@ def run(ctx):
     # a batch is only right if every adapter translates each of its diffs right
     from . import groups
     groups.util_stage_rules(ctx)
+    # the batched adapters sit on the batched subscriber stream and on commit's messages
+    groups.im_core(ctx)
 
 
 
